@@ -171,4 +171,192 @@ theorem stream_shape (start dur vel td total : F) (n : Int) (buf : List (SliderE
     rw [collect_spans fuel p ds hfuel p.spanCount.toNat 0 (by omega) N' (by omega)]
     simp [eventsOf]
 
+/-- the same, against `eventsSpec` (both sides `none` exactly when the fuel is exhausted, see
+`stream_fuel_exhausted`). -/
+theorem stream_shape_spec (start dur vel td total : F) (n : Int) (buf : List (SliderEvent F))
+    (fuel N : Nat) (it : Iter F) (evs : List (SliderEvent F))
+    (hnew : Iter.new start dur vel td total n buf = some it)
+    (hn : 1 ≤ n)
+    (hspec : eventsSpec it.toParams fuel = some evs)
+    (hN : evs.length < N) :
+    collect fuel N it = eventsSpec it.toParams fuel := by
+  rw [hspec]
+  unfold eventsSpec at hspec
+  cases hds : spanTickDists it.toParams fuel with
+  | none => simp [hds] at hspec
+  | some ds =>
+    simp only [hds, Option.map_some, Option.some.injEq] at hspec
+    subst hspec
+    exact stream_shape start dur vel td total n buf fuel N it ds hnew (by omega) hds hN
+
+theorem new_eq {start dur vel td total : F} {n : Int} {buf : List (SliderEvent F)} {it : Iter F}
+    (hnew : Iter.new start dur vel td total n buf = some it) : it = ⟨it.toParams, [], .head⟩ := by
+  unfold Iter.new at hnew
+  cases hp : Params.new start dur vel td total n with
+  | none => simp [hp] at hnew
+  | some p =>
+    simp only [hp, Option.map_some, Option.some.injEq] at hnew
+    subst hnew; rfl
+
+/-- with too little fuel for the tick loop the model says so (`none`) instead of inventing a stream:
+the driver's `fuel-exhausted`. -/
+theorem stream_fuel_exhausted (start dur vel td total : F) (n : Int) (buf : List (SliderEvent F))
+    (fuel N : Nat) (it : Iter F)
+    (hnew : Iter.new start dur vel td total n buf = some it)
+    (hn : 1 ≤ n)
+    (hfuel : spanTickDists it.toParams fuel = none) :
+    collect fuel N it = none := by
+  have hpn : it.spanCount = n := by
+    unfold Iter.new at hnew
+    cases hp : Params.new start dur vel td total n with
+    | none => simp [hp] at hnew
+    | some p =>
+      simp only [hp, Option.map_some, Option.some.injEq] at hnew
+      subst hnew; exact new_spanCount hp
+  rw [new_eq hnew]
+  cases N with
+  | zero => rfl
+  | succ N =>
+    rw [collect_succ, next_head]
+    simp only []
+    cases N with
+    | zero => rfl
+    | succ N =>
+      rw [collect_succ, next_generate fuel it.toParams 0 (by omega), hfuel]
+      rfl
+
+/-! ### event count -/
+
+theorem spanEvents_length (p : Params F) (ds : List F) (s : Int) :
+    (spanEvents p ds s).length = ds.length + (if s < p.spanCount - 1 then 1 else 0) := by
+  unfold spanEvents
+  by_cases hr : isReversed s = true <;> by_cases hw : s < p.spanCount - 1 <;> simp [hr, hw]
+
+theorem spansFrom_length (p : Params F) (ds : List F) :
+    ∀ (k : Nat) (s : Int), s + (k + 1 : Nat) = p.spanCount →
+      (spansFrom p ds s (k + 1)).length + 1 = (k + 1) * (ds.length + 1)
+  | 0, s, hs => by
+    have : ¬ s < p.spanCount - 1 := by omega
+    simp [spansFrom, spanEvents_length, this]
+  | k + 1, s, hs => by
+    have hw : s < p.spanCount - 1 := by omega
+    have ih := spansFrom_length p ds k (s + 1) (by omega)
+    rw [spansFrom, List.length_append, spanEvents_length]
+    simp only [hw, if_true]
+    rw [Nat.succ_mul (k + 1)]
+    omega
+
+/-- **event count**: one head, per span its ticks, a repeat between consecutive spans, last tick, tail. -/
+theorem event_count (p : Params F) (ds : List F) (hn : 1 ≤ p.spanCount) :
+    (eventsOf p ds).length = p.spanCount.toNat * (ds.length + 1) + 2 := by
+  obtain ⟨k, hk⟩ : ∃ k : Nat, p.spanCount.toNat = k + 1 := ⟨p.spanCount.toNat - 1, by omega⟩
+  have h := spansFrom_length p ds k 0 (by omega)
+  simp only [eventsOf, List.length_cons, List.length_append, List.length_nil, hk]
+  omega
+
+/-! ### the buffer does not matter -/
+
+/-- **buffer_irrelevant** (construction): `new` clears the buffer, so the iterator — and with it every
+event it will ever yield — is the same for any previous contents. -/
+theorem buffer_irrelevant (start dur vel td total : F) (n : Int) (buf buf' : List (SliderEvent F)) :
+    Iter.new start dur vel td total n buf = Iter.new start dur vel td total n buf' := rfl
+
+theorem runUse_buffer (fuel : Nat) (u : Use F) (buf : List (SliderEvent F)) :
+    (runUse fuel u buf).1 = (runUse fuel u []).1 := by
+  unfold runUse
+  rw [buffer_irrelevant u.startTime u.spanDuration u.velocity u.tickDist u.totalDist u.spanCount buf []]
+  cases Iter.new u.startTime u.spanDuration u.velocity u.tickDist u.totalDist u.spanCount [] <;> rfl
+
+/-- **buffer_irrelevant** (histories): a sequence of iterators run one after the other on one shared
+buffer, each consumed completely or abandoned after any number of events (leaving its pending events
+in the buffer), shows every caller exactly what it would have seen with a fresh empty buffer. -/
+theorem runSeq_buffer_irrelevant (fuel : Nat) :
+    ∀ (us : List (Use F)) (buf : List (SliderEvent F)),
+      (runSeq fuel us buf).1 = us.map (fun u => (runUse fuel u []).1)
+  | [], _ => rfl
+  | u :: us, buf => by
+    simp only [runSeq, List.map_cons]
+    rw [runSeq_buffer_irrelevant fuel us (runUse fuel u buf).2, runUse_buffer fuel u buf]
+
+/-! ### spans as a concatenation, repeats -/
+
+/-- `spansFrom` is the concatenation of the per-span lists. -/
+theorem spansFrom_eq_flatMap (p : Params F) (ds : List F) :
+    ∀ (k : Nat) (s : Int),
+      spansFrom p ds s k = (List.range k).flatMap (fun i => spanEvents p ds (s + (i : Nat)))
+  | 0, _ => rfl
+  | k + 1, s => by
+    rw [spansFrom, spansFrom_eq_flatMap p ds k (s + 1), List.range_succ_eq_map, List.flatMap_cons,
+      List.flatMap_map]
+    simp only [Int.natCast_zero, Int.add_zero, List.append_cancel_left_eq]
+    congr 1
+    funext i
+    simp only [Nat.succ_eq_add_one, Int.natCast_add, Int.natCast_one]
+    congr 1
+    omega
+
+/-- the stream in the form of the property text:
+`head :: concat (spans.map (ticks ++ repeat?)) ++ [lastTick, tail]`. -/
+theorem eventsOf_eq_concat (p : Params F) (ds : List F) :
+    eventsOf p ds =
+      headEvent p :: ((List.range p.spanCount.toNat).flatMap (fun i => spanEvents p ds (i : Nat)) ++
+        [lastTickEvent p, tailEvent p]) := by
+  simp [eventsOf, spansFrom_eq_flatMap]
+
+theorem flatMap_if_singleton {α β : Type} (l : List α) (c : α → Prop) [DecidablePred c] (f : α → β)
+    (h : ∀ a ∈ l, c a) : l.flatMap (fun a => if c a then [f a] else []) = l.map f := by
+  induction l with
+  | nil => rfl
+  | cons a l ih =>
+    have ha : c a := h a (by simp)
+    simp only [List.flatMap_cons, List.map_cons, ha, if_true, List.singleton_append]
+    rw [ih (fun b hb => h b (by simp [hb]))]
+
+/-- with no tick distances, span `s` is just its repeat (if it has one). -/
+theorem spanEvents_nil (p : Params F) (s : Int) :
+    spanEvents p [] s = if s < p.spanCount - 1 then [repeatEvent p s] else [] := by
+  unfold spanEvents
+  by_cases hr : isReversed s = true <;> simp [hr]
+
+theorem spanTickDists_of_not_pos (p : Params F) (fuel : Nat) (h : Scalar.lt (0 : F) p.tickDist = false) :
+    spanTickDists p fuel = some [] := by
+  simp [spanTickDists, Scalar.gt, h]
+
+/-- **repeats_all_present**: when the `tick_dist > 0.0` test fails (tick distance zero after the clamp,
+negative before it, or NaN) no fuel is needed, there is no tick, and the stream is the head, the
+`span_count − 1` repeats in order, the last tick and the tail. -/
+theorem repeats_all_present (start dur vel td total : F) (n : Int) (buf : List (SliderEvent F))
+    (fuel N : Nat) (it : Iter F)
+    (hnew : Iter.new start dur vel td total n buf = some it)
+    (hn : 1 ≤ n)
+    (htd : Scalar.lt (0 : F) it.tickDist = false)
+    (hN : n.toNat + 2 < N) :
+    collect fuel N it =
+      some (headEvent it.toParams ::
+        ((List.range (n.toNat - 1)).map (fun i => repeatEvent it.toParams (i : Nat)) ++
+          [lastTickEvent it.toParams, tailEvent it.toParams])) := by
+  have hpn : it.spanCount = n := by
+    unfold Iter.new at hnew
+    cases hp : Params.new start dur vel td total n with
+    | none => simp [hp] at hnew
+    | some p =>
+      simp only [hp, Option.map_some, Option.some.injEq] at hnew
+      subst hnew; exact new_spanCount hp
+  have hds := spanTickDists_of_not_pos it.toParams fuel htd
+  have hcount := event_count it.toParams [] (by omega)
+  rw [stream_shape start dur vel td total n buf fuel N it [] hnew (by omega) hds
+    (by rw [hcount, hpn]; simp; omega), eventsOf_eq_concat]
+  congr 2
+  obtain ⟨k, hk⟩ : ∃ k : Nat, n.toNat = k + 1 := ⟨n.toNat - 1, by omega⟩
+  have hpn' : it.toParams.spanCount = n := hpn
+  rw [hpn', hk, List.range_succ, List.flatMap_append]
+  simp only [spanEvents_nil, hpn', List.flatMap_cons, List.flatMap_nil, List.append_nil]
+  have hlast : ¬ ((k : Nat) : Int) < n - 1 := by omega
+  simp only [hlast, if_false, List.append_nil, Nat.add_sub_cancel]
+  congr 1
+  apply flatMap_if_singleton
+  intro i hi
+  have := List.mem_range.mp hi
+  omega
+
 end Rosu.C20
